@@ -41,7 +41,7 @@ def fresh(indices):
     env = dict(os.environ)
     env['PYTHONPATH'] = os.pathsep.join([os.environ.get('VERIF_REPO', '/repo'), os.path.join(VERIF, 'harness')])
     p = subprocess.run([sys.executable, os.path.join(VERIF, 'harness', 'c19corpus.py')] + [str(i) for i in indices],
-                       stdout=subprocess.PIPE, stderr=subprocess.PIPE, text=True, env=env, timeout=300)
+                       stdout=subprocess.PIPE, stderr=subprocess.PIPE, text=True, env=env, timeout=1200)
     if p.returncode != 0:
         raise RuntimeError('c19 worker failed: ' + p.stderr[-500:])
     return json.loads(p.stdout)
